@@ -79,7 +79,11 @@ class SchemaCollection(UnicodeMixin):
         else:
             self.__keep_element_form(schema.root, existing.root)
             existing.root.children += schema.root.children
-            existing.root.nsprefixes.update(schema.root.nsprefixes)
+            # The moved children still resolve prefixes through their own
+            # schema node; do not rebind prefixes the existing node's content
+            # already uses.
+            for prefix, uri in schema.root.nsprefixes.items():
+                existing.root.nsprefixes.setdefault(prefix, uri)
 
     @staticmethod
     def __keep_element_form(root, target):
